@@ -1471,7 +1471,41 @@ class C13(Prop):
     trusted = ["number accessors of lazy values are compared with the specification's classification (C07 is about their exactness)"]
     assumptions = ["inputs are well-formed (others are only checked for rejection by every entry)"]
 
+    def _lossy_feature(self, ctx, res):
+        """build with the cargo feature utf8_lossy: there the DOM of a text with unpaired surrogate escapes exists (U+FFFD), and the lazy and
+        owned-lazy views of that text have to report the same strings and keys"""
+        if ctx.get("replay"):
+            return
+        vb = build_variant(ctx, "lossy", features=["utf8_lossy"])
+        if vb is None:
+            return
+        cp = generate(ctx, "c13lf")
+        with open(cp) as f:
+            cases = f.read().splitlines()
+        rc, err = ctx["run_lines"](vb, ["c13lf", "run"], cp, cp + ".impl")
+        with open(cp + ".impl", errors="replace") as f:
+            impl = f.read().splitlines()
+        if rc != 0 or len(impl) != len(cases):
+            res.oracle_failures.append(dict(key="c13lf:process-abort", case=cases[min(len(impl), len(cases) - 1)], detail=err[-300:]))
+        for i in range(min(len(impl), len(cases))):
+            res.evaluations += 1
+            I = ctx["parse_fields"](impl[i])
+            if I.get("feat") != "1":
+                res.model_disagreements.append(dict(key="c13lf:feature-not-enabled-in-variant-build", case=cases[i], detail=impl[i][:100]))
+                break
+            d = I.get("d")
+            res.distribution["utf8_lossy-feature:" + ("dom-rejects" if d == "R" else "dom-accepts")] += 1
+            if d == "R":
+                continue
+            if "efbfbd" in d:
+                res.nontrivial(cases[i])
+            for fld, what in (("l", "LazyValue"), ("o", "OwnedLazyValue"), ("ol", "OwnedLazyValue::from(LazyValue)")):
+                if I.get(fld) != d:
+                    res.oracle_failures.append(dict(key=f"C13|feature-utf8_lossy|{fld}|view-differs-from-dom-of-the-text", case=cases[i],
+                                                    detail=f"{what} {I.get(fld, '')[:120]} dom {d[:120]}"))
+
     def explore(self, ctx, res):
+        self._lossy_feature(ctx, res)
         name = "c13"
         cases_path = generate(ctx, name)
         impl, model, crashed, err = run_stream(ctx, name, cases_path)
@@ -1540,6 +1574,10 @@ class C13(Prop):
                         res.oracle_failures.append(dict(key=f"C13|{k}|not-verbatim", case=case, detail=f"ser {parts[1][:160]} / {parts[2][:160]} spec {raw[:160]}"))
                 elif k == "m.push" and v != M.get("push"):
                     res.oracle_failures.append(dict(key="C13|m.push|mutated-container-serializes-differently", case=case, detail=f"impl {v[:200]} model {M.get('push','')[:200]}"))
+                elif k == "m.cpush" and v != M.get("push"):
+                    res.oracle_failures.append(dict(key="C13|m.cpush|mutated-clone-of-container-view-serializes-differently", case=case, detail=f"impl {v[:200]} model {M.get('push','')[:200]}"))
+                elif k == "m.cmut" and (v.startswith("PANIC") or (":" in v and int(v.split(":")[0]) - (1 if int(v.split(":")[0]) > 0 else 0) != int(v.split(":")[1]))):
+                    res.oracle_failures.append(dict(key="C13|m.cmut|mutating-a-clone-of-a-container-view-fails", case=case, detail=f"impl {v[:100]}"))
                 elif k == "m.replace0" and v != M.get("repl"):
                     res.oracle_failures.append(dict(key="C13|m.replace0|mutated-container-serializes-differently", case=case, detail=f"impl {v[:200]} model {M.get('repl','')[:200]}"))
 
